@@ -155,4 +155,35 @@ def exampleRun : Result :=
 
 #guard exampleRun.status == 0 && exampleRun.writes == [("out/prog.sh", [7]), ("out/prog.bat", [8]), ("out/prog.sh", [7])]
 
+/-- **An option without its value is a bad option**: an argument list of odd length - a single trailing argument after the
+    pairs, whatever it is - is rejected, for every file system and every pair in front of it (fix: it had been ignored). -/
+theorem parsePairs_odd : ∀ (args : List String) (o : Opts), args.length % 2 = 1 → parsePairs fs args o = none
+  | [], _, h => by simp at h
+  | [_], _, _ => rfl
+  | sw :: v :: rest, o, h => by
+    have hr : rest.length % 2 = 1 := by simp only [List.length_cons] at h; omega
+    unfold parsePairs
+    split
+    · split
+      · rfl
+      · split
+        · rfl
+        · exact parsePairs_odd rest _ hr
+    · split
+      · split
+        · rfl
+        · split
+          · rfl
+          · exact parsePairs_odd rest _ hr
+      · split
+        · split
+          · exact parsePairs_odd rest _ hr
+          · rfl
+        · rfl
+
+theorem trailing_argument_is_rejected (args : List String) (h : args.length % 2 = 1) (transpile : Target → Option Bytes) :
+    (run fs args transpile).status ≠ 0 ∧ (run fs args transpile).writes = [] := by
+  have : parseOptions fs args = none := by simp [parseOptions, parsePairs_odd fs args {} h]
+  simp [run, this]
+
 end Tsh.C19
